@@ -186,6 +186,11 @@ def macro_half(rep, quick):
     rep.part('generated output_path() (tier B corpus)', obligations=ob)
 
 
+def tyres_items():
+    from . import tyres
+    return list(tyres.G.get('corpus', {}))
+
+
 def main():
     rep = report.Report('C11', 'bounded symbolic execution of rustc MIR: the recursive export over a type universe whose dependency graph, '
                                'exportability and placement are solver variables; on every path the set of files created/modified and their '
@@ -215,13 +220,21 @@ def main():
                   'placements per type': MENUS, 'pre-existing files': ['<base>/keep.txt', '<base>/sub/other.ts', '/tmp/outside.txt'],
                   'entries': sorted({(i[1], str(i[2])) for i in items}), 'cells': len(items)}
     rep.outside += ['export_to strings longer than the bound in the generated output_path() rule',
-                    'dependencies reachable only through generic arguments / inlined / flattened / `as` types: what visit_dependencies '
-                    'reports is given here (macro half)', 'graphs with more types']
+                    'derive inputs outside the corpus (the reachability half checks visit_dependencies of the corpus items only)', 'graphs with more types']
     rep.assumptions += ['file-system model validated against the real file system (C06 validation + replay of counterexamples)']
     try:
         macro_half(rep, quick)
     except Unsupported as e:
         rep.inconclusive.append(f'macro half: {e}')
+    # which types are "reachable": the derive-generated visit_dependencies of every corpus item reports exactly the types its
+    # binding refers to, including the generic arguments of a field type written without `<..>` (alias / defaulted parameters).
+    # Shared with C03 (props/c03.py macro_half): a type the derive fails to report is a file the export never writes.
+    try:
+        from . import c03
+        c03.macro_half(rep)
+        rep.part('derive-generated visit_dependencies (tier B corpus, shared with C03)', items=len(tyres_items()))
+    except Unsupported as e:
+        rep.inconclusive.append(f'reachability half: {e}')
     results = par.pmap(explore, items)
     cand = []
     for r in results:
